@@ -168,7 +168,8 @@ def coq_step(pid, log, thorough=False):
         return res
     text = open(src).read()
     text_nc = re.sub(r"\(\*.*?\*\)", " ", text, flags=re.S)
-    res["theorems"] = re.findall(r"^\s*(?:Theorem|Example)\s+(\w+)", text_nc, flags=re.M)
+    res["theorems"] = re.findall(r"^\s*Theorem\s+(\w+)", text_nc, flags=re.M)
+    res["examples"] = re.findall(r"^\s*Example\s+(\w+)", text_nc, flags=re.M)
     with tempfile.TemporaryDirectory(prefix="gvcoq") as td:
         out = os.path.join(td, f"{pid}.vo")
         cmd = ["timeout", "1800", "coqc", "-Q", COQ, "GV", "-o", out, src]
@@ -196,6 +197,9 @@ def coq_step(pid, log, thorough=False):
                 cur.append(m.group(1))
     axioms = sorted({a for b in blocks for a in b})
     res["assumption_blocks"] = len(blocks)
+    if res["ok"] and len(blocks) < len(res["theorems"]):
+        res["ok"] = False
+        res["output"] += f"\n{len(res['theorems'])} theorems but only {len(blocks)} Print Assumptions blocks"
     res["assumptions"] = axioms
     tsrc = os.path.join(COQ, "Props", f"{pid}_thorough.v")
     if thorough and res["ok"] and os.path.exists(tsrc):
@@ -501,7 +505,12 @@ def main_check(pid, tier, seed, replay=None):
 
     check_fails = [r for r in recs if r["check_fail"]]
     # a record whose only checker complaint is an open known finding still counts for the correspondence
-    diffs = [r for r in recs if r["diff"] and (not r["check_fail"] or matches_known(pid, r, known))]
+    # (a finding matched by its exact input - a "match" on case fields - covers the whole case, its diff included)
+    def _known_by_input(r):
+        k = matches_known(pid, r, known)
+        return bool(k) and "__verdict_prefix__" not in k.get("match", {})
+    diffs = [r for r in recs if r["diff"] and not _known_by_input(r)
+             and (not r["check_fail"] or matches_known(pid, r, known))]
 
     def still_fails_check(c):
         rr = evaluate_cases(mod, [c], ctx)[0]
@@ -611,6 +620,9 @@ def main_check(pid, tier, seed, replay=None):
             "checker_cmd": coq.get("cmd", "") + " (after ./build.sh: full make of coq/, no -vos)",
             "trusted_base": tb,
             "theorems": coq.get("theorems", []),
+            "non_vacuity_examples": coq.get("examples", []),
+            "print_assumptions_blocks": coq.get("assumption_blocks"),
+            "partial_or_unproved": list(getattr(mod, "PARTIAL", [])),
             "evaluations": len(recs),
             "distinct_nontrivial": len(nontrivial),
             "rule": getattr(mod, "RULE", ""),
@@ -621,7 +633,9 @@ def main_check(pid, tier, seed, replay=None):
             "checker_failures": len(check_fails),
             "search_cases_after_break": searched,
             "escalation_after_source_change": escalated,
-            "exhaustive": bool(getattr(mod, "EXHAUSTIVE", {}).get(tier, False)),
+            # the run as a whole mixes exhaustively enumerated sub-families with seeded random streams
+            "exhaustive": False,
+            "has_exhaustive_subfamily": bool(getattr(mod, "EXHAUSTIVE", {}).get(tier, False)),
             "histogram": hist,
             "explanation": getattr(mod, "EXPLANATION", ""),
         },
